@@ -1326,6 +1326,9 @@ int
 StorageReflectSession ::
 ChangeQueryFilterCallback(DataNode & node, void * ud)
 {
+   // Our own nodes aren't part of what we report to our own client (see GetDataCallback()), so a change of filter doesn't add or remove them either
+   if ((_indexingPresent == false)&&(IsRoutingFlagSet(MUSCLE_ROUTING_FLAG_REFLECT_TO_SELF) == false)&&(GetSession(node.GetAncestorNode(NODE_DEPTH_SESSIONNAME, &node)->GetNodeName())() == this)) return NODE_DEPTH_SESSIONNAME;
+
    void ** args = (void **) ud;
    const QueryFilter * oldFilter = static_cast<const QueryFilter *>(args[0]);
    const QueryFilter * newFilter = static_cast<const QueryFilter *>(args[1]);
